@@ -58,3 +58,19 @@ fn(L + "pop.pop", props=["C38"], types=dict(T, index="int"), consts=K, callees=d
             f"{I} == {OI}[:ite(index < 0, index + len({OI}), index)] + {OI}[ite(index < 0, index + len({OI}), index) + 1:]",
             f"{EV} == {OEV} + [pair('R', {OI}[index])]"],
    modifies=M, harness="ilist.pop")
+
+# ---- loop-based list operations: extend / += (one append event per item, in order) and clear (one remove event per item)
+from pyvc.contract import CLASSES as _C  # noqa: E402
+_C["IList"].methods = dict(_C["IList"].methods or {}, append=L + "append.append")
+fn(L + "extend.extend", props=["C38"], types=dict(T, iterable="list"), consts=K, callees=CAL, returns="none",
+   invariant={0: [f"{I} == {OI} + prefix(old(contents(iterable)), _i)", f"{EV} == {OEV} + tagall('A', prefix(old(contents(iterable)), _i))"]},
+   loop_modifies={0: M},
+   ensures=[f"{I} == {OI} + old(contents(iterable))", f"{EV} == {OEV} + tagall('A', old(contents(iterable)))"], modifies=M)
+fn(L + "__iadd__.__iadd__", props=["C38"], types=dict(T, iterable="list"), consts=K, callees=CAL,
+   invariant={0: [f"{I} == {OI} + prefix(old(contents(iterable)), _i)", f"{EV} == {OEV} + tagall('A', prefix(old(contents(iterable)), _i))"]},
+   loop_modifies={0: M},
+   ensures=["result is self", f"{I} == {OI} + old(contents(iterable))", f"{EV} == {OEV} + tagall('A', old(contents(iterable)))"], modifies=M)
+fn(L + "clear.clear", props=["C38"], types=dict(T, index="int"), consts=K, callees=dict(CAL, fn="builtin:list:clear"), returns="none",
+   invariant={0: [f"{I} == {OI}", f"{EV} == {OEV} + tagall('R', prefix({OI}, _i))"]},
+   loop_modifies={0: ["self.ev"]},
+   ensures=[f"len({I}) == 0", f"{EV} == {OEV} + tagall('R', {OI})"], modifies=M)
